@@ -100,6 +100,17 @@ CLAIMS["C05"] = (
     CLAIMS["C01"][2] + " Memory-level races are decided by Go's race detector (trusted); sub-call interleavings are whatever "
     "the scheduler produces (DESIGN.md 8).", "DESIGN.md 4/C05")
 
+CLAIMS["C16"] = (
+    "TLA+ cache specification: AbstractCache (policy-free) and the lock-step model of loadingCache.get (XCache.tla) checked "
+    "by TLC for all interleavings incl. refinement; TLC-enumerated key sequences run on a real cache through verif hooks "
+    "and matches(), goroutine runs under -race with logical-clock stamped calls, all validated by TLC (XCacheBatch.tla); "
+    "replace() template rewriting specified in XRegex.tla with Go's regexp as the environment oracle",
+    "Model checking of the cache design (mutual exclusion, capacity bound, exactness, failed loads not remembered, "
+    "refinement of the abstract cache) plus conformance of real sequential and concurrent histories; regex functions "
+    "checked over a generated (subject, pattern, template) grammar incl. invalid patterns.",
+    CLAIMS["C01"][2] + " Regular-expression semantics is Go's regexp (the reference the property names).",
+    "DESIGN.md 4/C16")
+
 NOT_YET = "check not built yet in this round (see DESIGN.md section 9 for the construction order)"
 
 
